@@ -24,7 +24,19 @@ def run(ck):
                       "rotating, plus seeded samples up to depth 5, plus helper chains to depth 10); distinct = distinct layer descriptors; non-trivial = "
                       "at least one transformer over a primitive; each is compiled and executed through the whole field API")
     ck.assume("pairwise layer-adjacency coverage in the quick tier (every second pair), all pairs + 150 seeded stacks in the thorough tier")
-    ck.assume("the CUDA backends (cuda_device_array, cuda_texture) are not compiled: no CUDA runtime in the sandbox (see KNOWN_FINDINGS.txt)")
+    # the CUDA device-array backend against the host shim: concept, conversion, copy/move/assign, dump/load must compile and run
+    import os, vf
+    import checks.layout_common as lay
+    inc = ["-I" + os.path.join(vf.HARNESS, "cuda_shim"), "-I" + os.path.join(vf.REPO, "lib/cuda")]
+    b = ck.build("h_cuda", "h_cuda.cpp", "asan", extra_flags=inc)
+    if not b:
+        ck.compile_violation("strided/cuda_device_array (host shim of the CUDA runtime)", ck.last_build_log)
+    else:
+        lcases = lay.run_layout_mc(ck, sizing_only=True)
+        rc, out, err = ck.run([b, lcases], timeout=900)
+        s = ck.harness_output("cuda-shim-api", rc, out, err)
+        ck.cov["impl_checks"] += s.get("checks", 0)
+    ck.assume("cuda_device_array is compiled against a host shim of the CUDA runtime; cuda_texture (texture objects) is not compiled")
 
 
 def json_key(c):
